@@ -354,7 +354,7 @@ func ruleNoListenerNoOutput(w *World, r *Report, pfx string) {
 		listeners := 0
 		for _, ev := range p.Events {
 			if g, ok := ev.In.(*ssa.Go); ok {
-				for _, t := range w.goTargets(g) {
+				for _, t := range p.goTargetsOn(ev, g) {
 					if w.fnSendsOn(t, "pState.renderReq") {
 						listeners++
 					}
